@@ -393,6 +393,22 @@ CONF = {"VERIFY": (["C09"], "set_verify for all 2^4 (role, auth, check_crl, chec
 for op, (props, d) in CONF.items():
     ob("tlsconf." + op.lower(), "btls/conf.c", ["-DOP_" + op], props, unwind=10, unwindset=["memset.0:1400", "ut_calloc.0:18", "ut_realloc.0:34"], desc=d)
 
+for tu, tudef in (("tcp", []), ("tls", ["-DTU_TLS"])):
+    for op in ("CONNECT", "SERVER", "ACCEPT"):
+        ob("frame.%s.life_%s" % (tu, op.lower()), "frame/life.c", tudef + ["-DOP_LIFE_" + op], ["C08"], unwind=12, flags=["--memory-leak-check"],
+           desc="%s_init (sub-socket create/init failing), %s_%s with address conversion or the byte-stream sub-socket's operation failing, then close|cleanup: sub-socket closed at most once and destroyed exactly once (typestate contract), frame buffers freed (leak check)" % (tu, tu, op.lower()))
+
+for op in ("CONNECT", "SERVER", "ACCEPT"):
+    ob("core.life_%s" % op.lower(), "core/life.c", ["-DOP_LIFE_" + op], ["C08", "C05", "C04", "C11"], unwind=14,
+       desc="xcm_%s_a then xcm_close|xcm_cleanup over a typestate transport mock: epoll_create1 failure, refused creation-time attribute, transport failure, blocking finish refused or interrupted by a signal, blocking accept retried after EAGAIN: every socket object destroyed once, transport closed at most once and never after its own failure, xpoll and attribute trees released; non-blocking sockets never wait" % op.lower())
+
+BLIFE = {"CONNECT": (["C08", "C02", "C03", "C09", "C05", "C06", "C18"], "btls_init, btls_connect with policy/address/context/SSL_new/BTCP-connect/hostname failures and any outcome of the first handshake step, then close|cleanup"),
+         "ACCEPT": (["C08", "C02", "C03", "C09", "C05", "C06", "C18"], "btls_accept from a serving socket (inherited policy) with BTCP-accept/policy/context/SSL_new/hostname failures and any first handshake outcome, then close|cleanup"),
+         "SERVER": (["C08", "C18"], "btls_server with address/policy/context/bind failures, then close|cleanup")}
+for op, (props, d) in BLIFE.items():
+    ob("btls.life_" + op.lower(), "btls/life.c", ["-DOP_LIFE_" + op], props, unwind=10, unwindset=["memset.0:1400", "ut_calloc.0:18", "ut_realloc.0:34"],
+       desc=d + ": BTCP sub-socket closed/destroyed exactly once (typestate), SSL object + BIO freed, SSL_CTX reference given back, bell registration deleted (owner only); verification mode, CRL/time flags, expected names, BIO and SSL_MODE_ENABLE_PARTIAL_WRITE in place before the handshake starts")
+
 # --------------------------------------------------------------------------
 # C20: xcmrelay (xrelay.c, rserver.c) over an XCM-API contract mock and a libevent mock
 # --------------------------------------------------------------------------
